@@ -398,10 +398,17 @@ def record_requests(vectors, make_requests, tag, configs, only=None, patient=Fal
                 warm.step()
         try:
             events.append(srv.cfg_event())
+            silent = 0
             for sid_, req in todo:
                 events.append(NET.exchange(srv, req, sid_, patient=patient, a_sock=reused))
                 if not srv.alive():
                     events.append({"e": "dead", "sid": sid_, "status": srv.exit_status()})
+                    break
+                # a listener that answers neither the request nor the sentinel behind it, five
+                # times in a row, is wedged: no point in waiting out the rest of the sequence
+                silent = 0 if NET.LAST["sentinel_answered"] else silent + 1
+                if silent >= 5:
+                    events.append({"e": "dead", "sid": sid_, "status": "wedged"})
                     break
         finally:
             if reused is not None:
